@@ -288,14 +288,25 @@ def battery(ctx, rng, cl, w, Qin, r_scalar, r_arr, rc_cap):
     # 3. per-query radii
     if r_arr is not None:
         Ra = np.asarray(r_arr, dtype=np.float64)
+        r_keep = r_arr.copy()
         exp2 = w.expect(Q, Ra, dist=dist)
         as_mask = bool(rng.random() < 0.4)
         res = _call(ctx, "get_atoms.radii_array", cl.get_atoms, Qin, r_arr, as_mask=as_mask)
         g = to_mask(ctx, res, as_mask, m, n, False, w.periodic)
-        what = "get_atoms(Q, %s, as_mask=%s)" % (_rdesc(r_arr), as_mask)
+        what = "get_atoms(Q, %s, as_mask=%s)" % (_rdesc(r_keep), as_mask)
         a, b = judge(ctx, "radii_array_exact", g, exp2, w, Q, Ra, what)
         tot_in += a; tot_out += b
         check_nonfinite(ctx, g, exp2, what)
+        # the radii belong to the caller: unchanged by the query, and a second query with the same array agrees
+        ctx.oracle("arguments_untouched")
+        if r_arr.dtype != r_keep.dtype or not np.array_equal(r_arr, r_keep):
+            ctx.fail("arguments_untouched", "%s changed the caller's radii array to %s" % (what, _rdesc(r_arr)))
+        res = _call(ctx, "get_atoms.radii_array_again", cl.get_atoms, Qin, r_arr, as_mask=not as_mask)
+        g2 = to_mask(ctx, res, not as_mask, m, n, False, w.periodic)
+        ctx.oracle("mask_equals_index", m)
+        if not np.array_equal(g, g2):
+            i, j = (int(x) for x in np.argwhere(g != g2)[0])
+            ctx.fail("mask_equals_index", "%s: second query with the same radii array differs for query %d atom %d" % (what, i, j))
 
     # 4. single (3,) form
     for _ in range(1 if m < 4 else 2):
